@@ -241,7 +241,7 @@ def known_C08(c, r, reason):
     return None
 
 def o_C08(cases, rust, lean, V, wd):
-    check_encoded(cases, rust, V, wd, layout=True, must_succeed=False, known=known_C08)
+    check_encoded(cases, rust, V, wd, layout=True, must_succeed=False, known=known_C08, lean=lean)
     for i, r in enumerate(rust):
         if r.startswith('panic') or r.startswith('crash'):
             V.failing.append((i, 'encode did not return: ' + r))
@@ -409,7 +409,7 @@ def o_C12(cases, rust, lean, V, wd):
         if kind == 'api.nev' and r.startswith('ok 0'): V.failing.append((i, 'empty NonEmptyVec'))
 
 def o_C13(cases, rust, lean, V, wd):
-    check_encoded(cases, rust, V, wd, layout=False)
+    check_encoded(cases, rust, V, wd, layout=False, lean=lean)
     for i, (c, r) in enumerate(zip(cases, rust)):
         t = c.op.split(' ')
         if c.tag.startswith('interchangeable') and r.startswith('ok '):
@@ -451,7 +451,7 @@ def o_C14(cases, rust, lean, V, wd):
             seen.setdefault(c.op, r)
 
 def o_C15(cases, rust, lean, V, wd):
-    check_encoded(cases, rust, V, wd, layout=False)
+    check_encoded(cases, rust, V, wd, layout=False, lean=lean)
 
 def rr_layout_problems(b):
     w = Walker(b)
@@ -460,7 +460,7 @@ def rr_layout_problems(b):
     return w.problems
 
 def o_C16(cases, rust, lean, V, wd):
-    check_encoded(cases, rust, V, wd, layout=False)
+    check_encoded(cases, rust, V, wd, layout=False, lean=lean)
     for i, (c, r, l) in enumerate(zip(cases, rust, lean)):
         if c.op.startswith('enc.rr') and r.startswith('ok '):
             probs = rr_layout_problems(bytes.fromhex(r[3:]))
@@ -469,7 +469,7 @@ def o_C16(cases, rust, lean, V, wd):
             V.failing.append((i, 'record accepted although the RFC 9460 wire rules reject it (%s)' % l))
 
 def o_C17(cases, rust, lean, V, wd):
-    check_encoded(cases, rust, V, wd, layout=False)
+    check_encoded(cases, rust, V, wd, layout=False, lean=lean)
     api = [i for i, c in enumerate(cases) if c.op.startswith('api.')]
     if api:
         V2 = Verdicts()
